@@ -105,6 +105,7 @@ type Engine struct {
 	idSeen       map[string]int
 	guardedWrites map[string]string // lock-guarded components this function writes (itself or through callee contracts)
 	ownedVals    map[string]*ownedRec // references loaded from `owns` fields (by term) -> protecting lock
+	globalVals   map[string]string    // references loaded from package variables without a declared lock (by term) -> variable
 	inQuant   int
 	bodyOrd   map[string]int
 	noOutside bool
